@@ -89,6 +89,7 @@ pub fn gen_case(ch: &mut Chooser) -> Case {
             &CfOpts {
                 back_edges: true,
                 faults: false,
+                trunc_tail: false,
                 max_blocks: 8,
             },
         );
